@@ -21,6 +21,16 @@ def c09_key(aid, events, outs):
     return "c09:%s:%s" % (aid, o.get("rule", "?"))
 
 
+def c10_key(aid, events, outs):
+    o = {x["key"]: x["val"] for x in outs}
+    p = o.get("panic", "")
+    cls = "other"
+    for c in ("index out of range", "nil pointer", "slice bounds", "interface conversion", "makeslice", "divide by zero"):
+        if c in p:
+            cls = c
+    return "c10:%s:%s" % (aid, cls if aid == "validate-does-not-panic" else "")
+
+
 def c11_key(aid, events, outs):
     m = {e["name"]: e["value"] for e in events}
     role = {"mode_main": "main", "mode_impa": "import", "mode_impb": "import", "mode_dep": "import", "mode_v0": "version"}
@@ -73,7 +83,40 @@ C09_ASSUME = ["models are built at the level dsl.Validate receives them (YAML te
               "base model: harness baseModel (enum, record, alias, generic record + instantiation, protocol) in a main namespace and in an imported namespace",
               "one violation per run; names drawn from small finite domains decided by the solver"]
 
+C10_ASSUME = ["arbitrary bytes / YAML text are outside this technique (yaml.v3, participle); models are arbitrary at the AST level dsl.Validate receives",
+              "expression vocabulary: harness zz_c10.go (depth 1: arguments are leaves)"]
+
+def only_thorough(spec):
+    mod, fn, kw = spec
+    return (mod, fn, dict(kw, tiers=("thorough",)))
+
+
+C10_FORMS = {
+    0: (G, "gosym_part", dict(name="c10_computed_form0", entry="internal/zzverif.C10Computed", args_quick=(1, 0), args_thorough=(1, 0), key_fn=c10_key,
+                               required_sites=("validate-does-not-panic",), assumptions=C10_ASSUME,
+                               desc="dsl.Validate on a record with every kind of field and one computed field whose expression is: leaf (literal / field access / nested member access); no panic, errors carry a file position")),
+    1: (G, "gosym_part", dict(name="c10_computed_form1", entry="internal/zzverif.C10Computed", args_quick=(1, 1), args_thorough=(1, 1), key_fn=c10_key,
+                               required_sites=("validate-does-not-panic",), assumptions=C10_ASSUME,
+                               desc="dsl.Validate on a record with every kind of field and one computed field whose expression is: unary minus; no panic, errors carry a file position")),
+    2: (G, "gosym_part", dict(name="c10_computed_form2", entry="internal/zzverif.C10Computed", args_quick=(1, 2), args_thorough=(1, 2), key_fn=c10_key,
+                               required_sites=("validate-does-not-panic",), assumptions=C10_ASSUME,
+                               desc="dsl.Validate on a record with every kind of field and one computed field whose expression is: binary arithmetic; no panic, errors carry a file position")),
+    3: (G, "gosym_part", dict(name="c10_computed_form3", entry="internal/zzverif.C10Computed", args_quick=(1, 3), args_thorough=(1, 3), key_fn=c10_key,
+                               required_sites=("validate-does-not-panic",), assumptions=C10_ASSUME,
+                               desc="dsl.Validate on a record with every kind of field and one computed field whose expression is: subscript (0-2 arguments, optional labels) on vector/array/map/scalar targets; no panic, errors carry a file position")),
+    4: (G, "gosym_part", dict(name="c10_computed_form4", entry="internal/zzverif.C10Computed", args_quick=(1, 4), args_thorough=(1, 4), key_fn=c10_key,
+                               required_sites=("validate-does-not-panic",), assumptions=C10_ASSUME,
+                               desc="dsl.Validate on a record with every kind of field and one computed field whose expression is: function call size/dimensionIndex/dimensionCount/unknown with 0-3 arguments; no panic, errors carry a file position")),
+    5: (G, "gosym_part", dict(name="c10_computed_form5", entry="internal/zzverif.C10Computed", args_quick=(1, 5), args_thorough=(1, 5), key_fn=c10_key,
+                               required_sites=("validate-does-not-panic",), assumptions=C10_ASSUME,
+                               desc="dsl.Validate on a record with every kind of field and one computed field whose expression is: type conversion; no panic, errors carry a file position")),
+    6: (G, "gosym_part", dict(name="c10_computed_form6", entry="internal/zzverif.C10Computed", args_quick=(1, 6), args_thorough=(1, 6), key_fn=c10_key,
+                               required_sites=("validate-does-not-panic",), assumptions=C10_ASSUME,
+                               desc="dsl.Validate on a record with every kind of field and one computed field whose expression is: switch over optional/union/scalar targets with 1-2 cases and every pattern kind; no panic, errors carry a file position")),
+}
+
 PARTS = {
+    "C10": [C10_FORMS[f] for f in (0, 1, 3, 4, 5)] + [only_thorough(C10_FORMS[f]) for f in (2, 6)],
     "C09": [
         (G, "gosym_part", dict(name="c09_base", entry="internal/zzverif.C09Base", required_sites=("base-accepted",), assumptions=C09_ASSUME,
                                desc="the unmodified two-namespace base model validates (guards against an over-rejecting harness)")),
@@ -210,6 +253,12 @@ NOTES = ("Every claim is bounded: 'holds' means unsat within the stated bound. E
 NOT_APPLICABLE = {}
 
 CLAIMS = {
+    "C10": dict(text="Bounded symbolic execution (gosym) of the whole real validation pipeline on a record with every kind of field plus one computed field whose expression ranges "
+                     "over every expression form (literals, member access, unary, binary, subscript with 0-2 possibly labelled arguments, the three built-in functions with 0-3 "
+                     "arguments, conversions, switch with every pattern kind) applied to every kind of target: dsl.Validate never panics and every error is located. Two panics found "
+                     "this way were repaired (fix: commit 842eeab).",
+                note="Claimed from the AST level down: arbitrary bytes/YAML text through yaml.v3 and participle cannot be encoded by this technique (DESIGN section 7), nor can "
+                     "process-level memory/time. Expression depth 1 (arguments are leaves)."),
     "C09": dict(text="Bounded symbolic execution (gosym) of the whole real validation pipeline on base-model + one rule violation: 16 type-level rules x 10 positions and 21 "
                      "definition-level rules, each in the main and in an imported namespace: validation fails and the error text names the offending file. Two genuine defects found "
                      "this way were repaired (fix: commits 0de7622, b7cf9f1). Package-level propagation (imports, previous versions) is the C11 part.",
